@@ -1,4 +1,7 @@
-import AsherahVerif.Driver.Loop
-/- model driver executable of engine `server` (stub until the engine is built) -/
+import AsherahVerif.Driver.Server
+/- model driver executable of engine `server` (C19): reads the harness' trace on stdin -/
+open AsherahVerif.Driver
+
 def main (_args : List String) : IO UInt32 := do
-  IO.eprintln "engine server: not built yet"; return 2
+  runEngine ServerEngine.engine
+  return 0
